@@ -68,8 +68,8 @@ fn render(line: &Value, r: &mut rand::rngs::StdRng) -> (String, [f64; 7], [f64; 
     t.push_str(&format!("opw_kinematics_geometric_parameters:{}\n", cm("metres")));
     for i in 0..7 { t.push_str(&format!("{}{}: {}{}\n", ind, names[i], toks[i], if i == 2 { cm("offset") } else { String::new() })); }
     if line["dof_place"] == "nested" { t.push_str(&format!("{}dof: {}{}\n", ind, line["dof_value"], cm("degrees of freedom"))); }
-    t.push_str(&format!("opw_kinematics_joint_offsets: [{}]{}\n", off_toks.join(", "), cm("radians or deg()")));
-    t.push_str(&format!("opw_kinematics_joint_sign_corrections: [{}]\n", sign_toks.join(if layout == "plain" { ", " } else { "," })));
+    if noff > 0 { t.push_str(&format!("opw_kinematics_joint_offsets: [{}]{}\n", off_toks.join(", "), cm("radians or deg()"))); }
+    if nsign > 0 { t.push_str(&format!("opw_kinematics_joint_sign_corrections: [{}]\n", sign_toks.join(if layout == "plain" { ", " } else { "," }))); }
     if line["dof_place"] == "top" { t.push_str(&format!("dof: {}\n", line["dof_value"])); }
     if layout == "comments" { t.push_str("\n# Constraints are not loaded when reading parameters from file.\nconstraints:\n  from: [deg(-179.0000), 0, 0, 0, 0, 0]\n  to: [deg(179.0000), 0, 0, 0, 0, 0]\n"); }
     (t, lens, offs, signs)
@@ -103,12 +103,12 @@ pub fn replay(input: &str, output: &str) {
                     out.put(json!({"sig": format!("yaml:dof-differs:dof-{}", line["dof_place"].as_str().unwrap()), "detail": format!("dof {} expected {}; {}", p.dof, want_dof, desc), "data": desc}));
                 }
                 let want6 = line["expect_sign6"].as_i64().unwrap() as i8;
-                let mut ws = signs;
+                let mut ws = if line["nsign"] == 0 { [1i8; 6] } else { signs };
                 ws[5] = want6;
                 if p.sign_corrections != ws && p.dof == want_dof {
                     out.put(json!({"sig": "yaml:signs-differ", "detail": format!("{:?} vs {:?}; {}", p.sign_corrections, ws, desc), "data": desc}));
                 }
-                let mut wo = offs;
+                let mut wo = if line["noff"] == 0 { [0.0; 6] } else { offs };
                 if line["expect_off6_zero"].as_bool().unwrap() { wo[5] = 0.0; }
                 if (0..6).any(|i| (p.offsets[i] - wo[i]).abs() > 1e-9) {
                     out.put(json!({"sig": "yaml:offsets-differ", "detail": format!("{:?} vs {:?}; {}", p.offsets, wo, desc), "data": desc}));
@@ -213,6 +213,9 @@ pub fn replay(input: &str, output: &str) {
         ("string-length".into(), good.replace("a1: ", "a1: abc").into_bytes()),
         ("short-offsets".into(), b"opw_kinematics_geometric_parameters:\n  a1: 0.1\n  a2: 0.1\n  b: 0.0\n  c1: 0.1\n  c2: 0.1\n  c3: 0.1\n  c4: 0.1\nopw_kinematics_joint_offsets: [0,0,0]\n".to_vec()),
         ("long-signs".into(), b"opw_kinematics_geometric_parameters:\n  a1: 0.1\n  a2: 0.1\n  b: 0.0\n  c1: 0.1\n  c2: 0.1\n  c3: 0.1\n  c4: 0.1\nopw_kinematics_joint_sign_corrections: [1,1,1,1,1,1,1,1]\n".to_vec()),
+        ("dof5-four-signs".into(), b"opw_kinematics_geometric_parameters:\n  a1: 0.1\n  a2: 0.1\n  b: 0.0\n  c1: 0.1\n  c2: 0.1\n  c3: 0.1\n  c4: 0.1\nopw_kinematics_joint_sign_corrections: [1, 1, -1, -1]\ndof: 5\n".to_vec()),
+        ("dof5-no-signs-entries".into(), b"opw_kinematics_geometric_parameters:\n  a1: 0.1\n  a2: 0.1\n  b: 0.0\n  c1: 0.1\n  c2: 0.1\n  c3: 0.1\n  c4: 0.1\n  dof: 5\nopw_kinematics_joint_sign_corrections: []\n".to_vec()),
+        ("dof5-three-offsets".into(), b"opw_kinematics_geometric_parameters:\n  a1: 0.1\n  a2: 0.1\n  b: 0.0\n  c1: 0.1\n  c2: 0.1\n  c3: 0.1\n  c4: 0.1\nopw_kinematics_joint_offsets: [0, 0, 0]\ndof: 5\n".to_vec()),
         ("bad-deg".into(), good.replace("[0,", "[deg(x),").into_bytes()),
         ("bad-deg-0".into(), good.replace("[0,", "[deg)90(,").into_bytes()),
         ("bad-deg-1".into(), good.replace("[0,", "[deg)(,").into_bytes()),
